@@ -374,6 +374,43 @@ def correspond(ctx):
         ctx.case(key=line); ctx.count("cxn"); ctx.count("cxn-ops", len(ops))
     ctx.sample({"kind": "cxn", "case": cases[0][1], "impl": impl[0]})
 
+    # the edge of the coordinate type: an assignment whose span to the other end point cannot be written is refused and
+    # leaves the connector alone (model: `Cxn.stepChecked`)
+    from pptx.enum.shapes import MSO_CONNECTOR
+    M = 27273042316900
+    n_edge = 150 if ctx.quick else 3000
+    for _ in range(n_edge):
+        LO = -27273042329600   # ST_Coordinate's lower bound (the schema's range is not symmetric)
+        E = lambda: rng.choice([0, 5, -7, M, -M, M - 3, -M + 3, M // 2, -M // 2 - 1, M + 1, -M - 1, LO, LO - 1, LO + 2, 914400])  # noqa
+        bx, by, ex, ey = [rng.choice([0, 5, -7, M // 2, -M // 2, 914400, M, -M]) for _ in range(4)]
+        if abs(ex - bx) > M or abs(ey - by) > M:
+            continue   # such a connector cannot be created (out of the property's states)
+        try:
+            c = slide.shapes.add_connector(MSO_CONNECTOR.STRAIGHT, bx, by, ex, ey)
+        except ValueError:
+            continue
+        e = c._element
+        snap = lambda: "%d,%d,%d,%d,%d,%d,%d,%d,%d,%d" % (e.x, e.cx, int(e.flipH), e.y, e.cy, int(e.flipV), c.begin_x, c.begin_y, c.end_x, c.end_y)  # noqa
+        outs = [snap()]
+        ops = []
+        for _k in range(rng.randint(1, 8)):
+            k, v = rng.choice(["bx", "by", "ex", "ey"]), E()
+            ops.append((k, v))
+            before = snap()
+            try:
+                setattr(c, {"bx": "begin_x", "by": "begin_y", "ex": "end_x", "ey": "end_y"}[k], v)
+                outs.append("ok:" + snap())
+            except ValueError:
+                outs.append("refused:" + snap())
+                if snap() != before:
+                    ctx.fail("connector:refused-but-changed", f"{k} = {v} was refused with ValueError but the connector changed from {before} to {snap()}",
+                             {"kind": "cxn-edge", "case": (bx, by, ex, ey, ops)})
+                ctx.count("cxn-edge-refused")
+        e.getparent().remove(e)
+        line = f"c17.cxnchk {bx} {by} {ex} {ey} " + ",".join(f"{k}:{v}" for k, v in ops)
+        lines.append(line); impl.append(";".join(outs)); cases.append(("cxn-edge", (bx, by, ex, ey, ops)))
+        ctx.case(key=line); ctx.count("cxn-edge")
+
     n_grp = 250 if ctx.quick else 4000
     for _ in range(n_grp):
         adds = gen_grp(rng)
